@@ -368,11 +368,11 @@ class Gen:
                 return [("src", f"\n__self_other();\n", n), ("other", m, n)]
         if k == "macro":
             nm = short(n["name"])
-            if nm in ("uwrite", "uwriteln") and n.get("args"):
+            if nm in ("uwrite", "uwriteln", "write", "writeln") and n.get("args"):
                 fm = synq.Fmt(n)
                 if fm.dest is not None and strip_refs(self.canon(fm.dest)) == "self.src":
                     t = self.expand(fm) if fm.template is not None else ""
-                    return [("src", t + ("\n" if nm == "uwriteln" else ""), n)]
+                    return [("src", t + ("\n" if nm.endswith("ln") else ""), n)]
             if nm == "assert" and n.get("args"):
                 return [("assert", self.canon(n["args"][0]), n)]
         if k == "assign" or (k == "binary" and n.get("op") == "="):
@@ -604,7 +604,7 @@ def alloc_arm(rep, f, name, arm, sib):
                 [e.get("k") for e in tl[1]["pat"]["elems"]] == ["p_ident", "p_ident"] and len(news[0]["args"]) == 1
             rep.ob("R6.1", f"{inst}: one `Cleanup::new(layout)` whose (pointer, guard) pair is bound to two named variables "
                            "of the enclosing generated scope", shape,
-                   f"{len(news)} call(s); pattern {render(tl[1]['pat']) if tl else None}", loc)
+                   f"{len(news)} call(s); bound by pattern {synq.pat_head(tl[1]['pat']) if tl else None}", loc)
             if not shape:
                 continue
             at, st = tl
@@ -735,7 +735,8 @@ def takeover_arm(rep, f, name, arm):
         nsite += 1
         fp = fr.calls(lambda n: short(render(n["func"])) == "from_raw_parts")
         ok = len(fp) == 1 and len(fp[0]["args"]) == 3
-        rep.ob("R6.3", f"{inst}: the received buffer is taken over by exactly one from_raw_parts", ok, f"{len(fp)} call(s)", loc)
+        rep.ob("R6.3", f"{inst}: the received buffer is taken over by exactly one from_raw_parts(ptr, len, capacity)", ok,
+               f"{[stable(render(c_)) for c_ in fp]}", loc)
         if not ok:
             continue
         c = fp[0]
@@ -1246,7 +1247,7 @@ def run(rep, tier):
         "FunctionBindgen construction site classified by its abi entry point, the flag consumed (list declared / asserted "
         "false) before the body is appended on every path, single writer of the flag; R6.5/R6.6 the free primitive and the "
         "guard are the items decided in C24 (R24.2-5: not repeated here); R6.7 census: no other arm or function writes a "
-        "guard, forget, take-over or free template. NOT decided: heap balance of an execution, that the element blocks "
+        "guard, forget, take-over or free template; R6.8 an import argument printed owned is lowered through `&name`. NOT decided: heap balance of an execution, that the element blocks "
         "(opaque here) are balanced among themselves beyond C03, SizeAlign, the allocator, user code.",
         trusted_base=["syn parse of the generator sources and of the assembled generated text",
                       "the model of format!/uwrite!/push_str text building in rules/C06.py (class Gen)",
@@ -1262,6 +1263,8 @@ def run(rep, tier):
     rep.rule("R6.5", "the free primitive is the embedded cabi_dealloc item (body: C24 R24.5)")
     rep.rule("R6.6", "the guard is rt::Cleanup (behaviour: C24 R24.2-4)")
     rep.rule("R6.7", "census: ownership primitives only in the audited arms")
+    rep.rule("R6.8", "an import argument that had to be printed owned is lowered through a borrow (`&name`), so borrowed lowering "
+                     "never consumes the caller's buffers")
     for rel in (BINDGEN, IFACE, RUSTLIB, CORE, RTMOD):
         rep.saw(file=rel)
     st = {}
@@ -1288,6 +1291,7 @@ def run(rep, tier):
     for name in ("ListCanonLift", "StringLift"):
         each("R6.3", name, lambda arm, name=name: n.__setitem__("take", n["take"] + takeover_arm(rep, f, name, arm)))
     rep.floor("R6.3", "take-over arm paths", n["take"], 3)
+    rep.guard("R6.3", "string_lift helper", lambda: string_lift_item(rep, f, m))
     for name, lifting in (("ListLift", True), ("MapLift", True), ("GuestDeallocateList", False), ("GuestDeallocateMap", False)):
         each("R6.3", name, lambda arm, name=name, lifting=lifting:
              n.__setitem__("free", n["free"] + free_arm(rep, f, name, arm, sib, lifting)))
@@ -1303,3 +1307,82 @@ def run(rep, tier):
     rep.guard("R6.4", "needs_cleanup_list", r64)
     rep.guard("R6.5", "links to C24", lambda: links(rep, f, m))
     rep.guard("R6.7", "census", lambda: census(rep, f, m))
+    rep.guard("R6.8", "rooting of borrowed arguments", lambda: rooting(rep))
+
+
+# ---------------------------------------------------------------- R6.8 borrowed lowering is rooted in the caller's argument
+def rooting(rep):
+    """Import arguments are lowered as borrows (realloc = None hands out raw pointers into them).  Where the signature
+    printer could not give the parameter the requested borrowed style (the type is printed owned), the operand handed
+    to the lowering code must be `&name`, never the owned value (which the element loop would consume and drop)."""
+    nsite = 0
+    for fn in synq.all_fns(IFACE):
+        if fn.body is None:
+            continue
+        cands = []
+        for n in synq.walk(fn.body):
+            if n.get("k") == "if" and n["cond"].get("k") == "binary" and n["cond"]["op"] in ("==", "!=") and n.get("else") is not None:
+                c = n["cond"]
+                sides = [c["l"], c["r"]]
+                if any(s.get("k") == "field" and s["member"] == "style" for s in sides):
+                    cands.append(n)
+        if not cands:
+            continue
+        env = {"self": "self"}
+        for i, p in enumerate(fn.params):
+            if p and p != "self":
+                env[p] = f"$p{i}"
+        g = Gen(fn.body, env)
+        for n in cands:
+            th = [mc for mc in synq.method_calls(n["then"], "push") if len(mc["args"]) == 1]
+            el = [mc for mc in synq.method_calls(n["else"], "push") if len(mc["args"]) == 1]
+            if len(th) != 1 or len(el) != 1 or render(th[0]["recv"]) != render(el[0]["recv"]):
+                continue
+            nsite += 1
+            same, diff = (th[0], el[0]) if n["cond"]["op"] == "==" else (el[0], th[0])
+            t_same, t_diff = g.text(same["args"][0]), g.text(diff["args"][0])
+            rep.saw(f"{IFACE}::{fn.name}")
+            rep.ob("R6.8", f"{fn.name}: a parameter whose printed type is not the requested borrowed style is handed to the lowering "
+                           "code as a borrow of the argument", re.fullmatch(r"__h\d+", t_same) is not None and t_diff == "&" + t_same,
+                   f"same style: `{g.ph_rev.get(t_same, t_same)}`; other style: `{t_diff}`", fn.loc(n))
+    rep.floor("R6.8", "signature printers that choose between the argument and a borrow of it", nsite, 1)
+
+
+def string_lift_item(rep, f, m):
+    """StringLift hands the taken-over byte vector to the embedded `string_lift` helper: it must consume it (no copy + leak)."""
+    arm = explicit_arm(m, "StringLift")
+    helpers = {mc["method"] for mc in synq.method_calls(arm.body) if mc["method"].startswith("path_to_") and mc["method"] != "path_to_vec"}
+    rep.ob("R6.3", "StringLift wraps the taken-over bytes with one runtime helper", len(helpers) == 1, f"{sorted(helpers)}", f.loc(arm.node))
+    if len(helpers) != 1:
+        return
+    p = synq.find_fn(IFACE, helpers.pop())
+    lits = [s["v"] for s in synq.strings(p.body)]
+    if len(lits) != 1:
+        rep.ob("R6.3", "the helper path names one function of the generated runtime module", False, f"{lits}", p.loc())
+        return
+    name = lits[0]
+    tpl = [s for s in synq.strings(synq.load(RUSTLIB)) if re.search(r"\bfn\s+%s\s*\(" % re.escape(name), s["v"])]
+    rep.ob("R6.3", f"one embedded `{name}` item in the runtime-module writer", len(tpl) == 1, f"{len(tpl)}", RUSTLIB)
+    if len(tpl) != 1:
+        return
+    ast = facts.parse_snippet(tpl[0]["v"])
+    where = f"{RUSTLIB}:{synq.line(tpl[0])}"
+    fns = [it for it in ast.get("items", []) if it.get("k") == "fn" and it["sig"]["name"] == name] if "error" not in ast else []
+    if len(fns) != 1:
+        rep.ob("R6.3", f"the embedded `{name}` parses as one Rust fn", False, str(ast.get("error", ""))[:160], where)
+        return
+    fn = fns[0]
+    ps = fn["sig"]["params"]
+    byval = len(ps) == 1 and ps[0].get("ty", "").replace(" ", "") == "Vec<u8>" and ps[0]["pat"].get("k") == "p_ident"
+    rep.ob("R6.3", f"`{name}` receives the byte vector by value", byval, f"{[p.get('ty') for p in ps]}", where)
+    if not byval:
+        return
+    pn = ps[0]["pat"]["name"]
+    uses = [n for n in synq.walk(fn["body"]) if n.get("k") == "path" and n["path"] == pn]
+    consuming = [c for c in synq.fn_calls(fn["body"]) if short(render(c["func"])) in ("from_utf8", "from_utf8_unchecked") and
+                 [render(a) for a in c["args"]] == [pn]]
+    bad = [render(n) for n in synq.walk(fn["body"]) if (n.get("k") == "mcall" and n["method"] in LEAKY | {"clone", "to_vec", "to_owned"}) or
+           (n.get("k") == "call" and n["func"].get("k") == "path" and short(render(n["func"])) in LEAKY)]
+    rep.ob("R6.3", f"`{name}`: every use of the byte vector moves it into String::from_utf8[_unchecked] (ownership passes to the "
+                   "returned String; nothing is copied, forgotten or leaked)", bool(uses) and len(uses) == len(consuming) and not bad,
+           f"{len(uses)} use(s), {len(consuming)} consuming, {bad}", where)
